@@ -237,3 +237,162 @@ Proof.
   repeat split; destruct (u_path u); reflexivity.
 Qed.
 End A.
+
+(** the modifiers with_scheme, with_user, with_password, with_host, with_fragment, with_port,
+    with_path, origin(), relative(), parent - and join() *)
+Section Mods.
+Variable O : oracles.
+Variable B : backend.
+
+Theorem gen_with_scheme_ok u s : gen_with_scheme O u s = with_scheme O u s.
+Proof. unfold gen_with_scheme, with_scheme. cbv zeta. destruct (negb (nonempty (u_netloc u)) && str_in (py_lower O s) SCHEME_REQUIRES_HOST); reflexivity. Qed.
+
+Theorem gen_with_user_ok u x : gen_with_user B u x = with_user B u x.
+Proof.
+  unfold gen_with_user, with_user. destruct x as [t|]; cbn [bind]; cbv zeta.
+  - destruct (raw_password u) as [pw|e]; cbn [bind]; [|reflexivity].
+    destruct (negb (nonempty (u_netloc u))); [reflexivity|].
+    destruct (host_subcomponent u) as [h|e]; cbn [bind]; [|reflexivity].
+    destruct (explicit_port u) as [p|e]; reflexivity.
+  - destruct (negb (nonempty (u_netloc u))); [reflexivity|].
+    destruct (host_subcomponent u) as [h|e]; cbn [bind]; [|reflexivity].
+    destruct (explicit_port u) as [p|e]; reflexivity.
+Qed.
+
+Theorem gen_with_password_ok u x : gen_with_password B u x = with_password B u x.
+Proof.
+  unfold gen_with_password, with_password. destruct x as [t|]; cbn [option_map]; cbv zeta;
+    (destruct (negb (nonempty (u_netloc u))); [reflexivity|]);
+    (destruct (host_subcomponent u) as [h|e]; cbn [bind]; [|reflexivity]);
+    (destruct (explicit_port u) as [p|e]; cbn [bind]; [|reflexivity]);
+    destruct (raw_user u) as [r|e]; reflexivity.
+Qed.
+
+Theorem gen_with_host_ok u h : gen_with_host O B u h = with_host O B u h.
+Proof.
+  unfold gen_with_host, with_host. cbv zeta.
+  destruct (negb (nonempty (u_netloc u))); [reflexivity|].
+  destruct (nonempty h) eqn:N; cbn [negb]; [|reflexivity].
+  destruct (encode_host O h true) as [eh|e]; cbn [bind]; [|reflexivity].
+  destruct (explicit_port u) as [p|e]; cbn [bind]; [|reflexivity].
+  destruct (raw_user u) as [r|e]; cbn [bind]; [|reflexivity].
+  destruct (raw_password u) as [w|e]; reflexivity.
+Qed.
+
+Theorem gen_with_fragment_ok u f : gen_with_fragment B u f = with_fragment B u f.
+Proof. unfold gen_with_fragment, with_fragment. destruct f as [t|]; reflexivity. Qed.
+
+Theorem gen_with_port_ok u p : gen_with_port B u p = with_port B u p.
+Proof.
+  assert (T : forall pt,
+            (let netloc := u_netloc u in
+             if negb (nonempty netloc) then Err ValueError
+             else match host_subcomponent u with
+                  | Err e => Err e
+                  | Ok h => let encoded_host := opt_or_empty h in
+                            match raw_user u with
+                            | Err e => Err e
+                            | Ok r => match raw_password u with
+                                      | Err e => Err e
+                                      | Ok w => let netloc0 := make_netloc' B r w (Some encoded_host) pt false in
+                                                Ok (from_parts (u_scheme u) netloc0 (u_path u) (u_query u) (u_fragment u))
+                                      end
+                            end
+                  end)
+            = (if negb (nonempty (u_netloc u)) then Err ValueError
+               else do h <- host_subcomponent u; do us <- raw_user u; do pw <- raw_password u;
+                    Ok (from_parts (u_scheme u) (make_netloc' B us pw (Some (opt_or_empty h)) pt false) (u_path u) (u_query u) (u_fragment u)))).
+  { intros pt. cbv zeta. destruct (negb (nonempty (u_netloc u))); [reflexivity|].
+    destruct (host_subcomponent u) as [h|e]; cbn [bind]; [|reflexivity].
+    destruct (raw_user u) as [r|e]; cbn [bind]; [|reflexivity].
+    destruct (raw_password u) as [w|e]; reflexivity. }
+  unfold gen_with_port, with_port. destruct p as [|z|b].
+  - cbn [bind]. apply T.
+  - destruct (Z.leb 0 z && Z.leb z 65535)%bool; cbn [negb bind]; [apply T|reflexivity].
+  - reflexivity.
+Qed.
+
+Lemma rooted_alt (p : str) :
+  (if match p with c0 :: _ => negb (N.eqb c0 47) | [] => false end then [47] ++ p else p)
+  = match p with [] => [] | 47 :: _ => p | _ => 47 :: p end.
+Proof.
+  destruct p as [|c r]; [reflexivity|]. destruct (N.eqb_spec c 47) as [->|Hn]; [reflexivity|]. cbn [negb app].
+  destruct c as [|q]; [reflexivity|]. repeat (destruct q as [q|q|]; try reflexivity). now contradiction Hn.
+Qed.
+
+Theorem gen_with_path_ok u p e kq kf : gen_with_path B u p e kq kf = with_path B u p e kq kf.
+Proof.
+  unfold gen_with_path, with_path. cbv zeta. rewrite <- !rooted_alt.
+  destruct e; cbn [negb]; [|destruct (nonempty (u_netloc u)); cbn [andb]; [destruct (mem 46 (Q B PATH_QUOTER p))|]];
+    match goal with |- context [match ?x with c0 :: _ => _ | [] => false end] => destruct (match x with c0 :: _ => negb (N.eqb c0 47) | [] => false end) end;
+    destruct kq, kf; reflexivity.
+Qed.
+
+Theorem gen_origin_ok u : gen_origin B u = origin B u.
+Proof.
+  unfold gen_origin, origin. cbv zeta.
+  destruct (negb (nonempty (u_netloc u))); [reflexivity|].
+  destruct (negb (nonempty (u_scheme u))); [reflexivity|].
+  destruct (mem 64 (u_netloc u)).
+  - destruct (host_subcomponent u) as [h|e]; cbn [bind]; [|reflexivity]. destruct (explicit_port u) as [p|e]; reflexivity.
+  - destruct (negb (nonempty (u_path u)) && negb (nonempty (u_query u)) && negb (nonempty (u_fragment u))); reflexivity.
+Qed.
+
+Theorem gen_relative_ok u : gen_relative u = relative u.
+Proof. reflexivity. Qed.
+
+Lemma startswith_slash p : startswith [47] p = match p with c0 :: _ => N.eqb c0 47 | [] => false end.
+Proof. destruct p as [|c r]; [reflexivity|]. cbn [startswith]. rewrite N.eqb_sym. destruct (N.eqb c 47); reflexivity. Qed.
+
+(** the index path[0] of the source is never reached with an empty path *)
+Theorem gen_parent_ok u : gen_parent u = Ok (parent u).
+Proof.
+  unfold gen_parent, parent. cbv zeta.
+  destruct (u_path u) as [|c r] eqn:E; [cbn [nonempty str_eqb negb orb]; destruct (nonempty (u_fragment u) || nonempty (u_query u)); reflexivity|].
+  destruct (negb (nonempty (c :: r)) || str_eqb (c :: r) [47]).
+  - destruct (nonempty (u_fragment u) || nonempty (u_query u)); reflexivity.
+  - rewrite startswith_slash.
+    destruct (negb (nonempty (join [47] (removelast (split 47 (c :: r))))) && (match c :: r with c0 :: _ => N.eqb c0 47 | [] => false end) && negb (nonempty (u_netloc u))); reflexivity.
+Qed.
+End Mods.
+
+Lemma match47 {A} (c : N) (X Y : A) : c <> 47 -> match c with 47 => X | _ => Y end = Y.
+Proof.
+  intros H. destruct c as [|p]; [reflexivity|].
+  repeat (destruct p as [p|p|]; try reflexivity). now contradiction H.
+Qed.
+
+Lemma hd47 {A} (s : str) (X Y : A) :
+  (match s with 47 :: _ => X | _ => Y end) = if (match s with c0 :: _ => N.eqb c0 47 | [] => false end) then X else Y.
+Proof.
+  destruct s as [|c r]; [reflexivity|]. destruct (N.eq_dec c 47) as [->|H]; [reflexivity|].
+  assert (E : N.eqb c 47 = false) by (now apply N.eqb_neq). rewrite E. now apply match47.
+Qed.
+Lemma last47 {A} (s : str) (X Y : A) :
+  (match last_opt s with Some 47 => X | _ => Y end) = if (match last_opt s with Some c0 => N.eqb c0 47 | None => false end) then X else Y.
+Proof.
+  destruct (last_opt s) as [c|]; [|reflexivity]. destruct (N.eq_dec c 47) as [->|H]; [reflexivity|].
+  assert (E : N.eqb c 47 = false) by (now apply N.eqb_neq). rewrite E. now apply match47.
+Qed.
+
+Theorem gen_join_ok base ref : gen_join base ref = Ok (join_url base ref).
+Proof.
+  unfold gen_join, join_url. cbv zeta.
+  assert (S : (if nonempty (u_scheme ref) then u_scheme ref else u_scheme base)
+              = match u_scheme ref with [] => u_scheme base | s => s end) by (destruct (u_scheme ref); reflexivity).
+  rewrite S. set (scheme := match u_scheme ref with [] => u_scheme base | s => s end).
+  destruct (negb (str_eqb scheme (u_scheme base)) || negb (str_in scheme USES_RELATIVE)); [reflexivity|].
+  destruct (nonempty (u_netloc ref) && str_in scheme USES_AUTHORITY); [reflexivity|].
+  rewrite !hd47, !last47.
+  destruct (u_path ref) as [|jc jr] eqn:EJ; [reflexivity|].
+  cbn [nonempty str_eqb negb orb].
+  destruct (N.eqb jc 47).
+  - destruct (mem 46 (jc :: jr)); reflexivity.
+  - destruct (u_path base) as [|oc or] eqn:EO.
+    + cbn [nonempty str_eqb negb]. destruct (nonempty (u_netloc base)); cbn [app];
+        match goal with |- context [mem 46 ?p] => destruct (mem 46 p) end; reflexivity.
+    + cbn [nonempty str_eqb negb].
+      destruct (match last_opt (oc :: or) with Some c0 => N.eqb c0 47 | None => false end).
+      * match goal with |- context [mem 46 ?p] => destruct (mem 46 p) end; reflexivity.
+      * destruct (N.eqb oc 47); match goal with |- context [mem 46 ?p] => destruct (mem 46 p) end; reflexivity.
+Qed.
